@@ -41,7 +41,7 @@ BATTERY_FNS = [B + "Battery.__init__", B + "Battery.charge", B + "Battery.reset"
                B + "Linear2StageBattery._charge", B + "Linear2StageBattery._charge_stepwise"]
 SET_PILOT = [S + "BaseEVSE.set_pilot@EVSE", S + "BaseEVSE.set_pilot@DeadbandEVSE", S + "BaseEVSE.set_pilot@FiniteRatesEVSE"]
 
-SHARDS = {NET + "add_constraint": 12, NET + "update_constraint": 4, "acnportal.acnsim.interface.Interface.is_feasible": 8, NET + "is_feasible": 6, NET + "constraint_current": 4, "acnportal.algorithms.utils.infrastructure_constraints_feasible": 4, SA + "sorting_algorithm": 8, SN + "unplug": 6, SN + "post_charging_update": 4, SN + "plugin": 3, SIM + "_update_schedules": 8, SIM + "_store_actual_charging_rates": 4, B + "batt_cap_fn": 8, AE + "_convert_to_ev": 4, SIM + "run": 16, SIM + "_process_event": 4, EQ + "get_current_events": 8, EQ + "add_events": 3, EQ + "__init__": 3, B + "Linear2StageBattery._charge": 6, B + "Linear2StageBattery._charge_stepwise": 2}
+SHARDS = {"acnportal.acndata.data_client.DataClient.get_sessions": 12, NET + "add_constraint": 12, NET + "update_constraint": 4, "acnportal.acnsim.interface.Interface.is_feasible": 8, NET + "is_feasible": 6, NET + "constraint_current": 4, "acnportal.algorithms.utils.infrastructure_constraints_feasible": 4, SA + "sorting_algorithm": 8, SN + "unplug": 6, SN + "post_charging_update": 4, SN + "plugin": 3, SIM + "_update_schedules": 8, SIM + "_store_actual_charging_rates": 4, B + "batt_cap_fn": 8, AE + "_convert_to_ev": 4, SIM + "run": 16, SIM + "_process_event": 4, EQ + "get_current_events": 8, EQ + "add_events": 3, EQ + "__init__": 3, B + "Linear2StageBattery._charge": 6, B + "Linear2StageBattery._charge_stepwise": 2}
 
 EVSE_FNS = [S + x for x in (
     "BaseEVSE.__init__", "EVSE.__init__", "DeadbandEVSE.__init__", "FiniteRatesEVSE.__init__",
@@ -331,17 +331,26 @@ PLAN = {
     ),
     "C20": dict(
         level="other",
+        functions=["acnportal.acndata.data_client.DataClient.get_sessions"],
         bounded=[dict(module="rt.fnmon", fn="dataclient_monitor", label="DataClient against a stub server; RFC-1123 conversions around DST transitions")],
-        text="BOUNDED: run-time contracts on the real DataClient with requests.get replaced by a stub server - for every paging structure up to "
-             "the bound (including empty pages followed by non-empty ones) the generator yields every session exactly once in server order, issues "
-             "exactly one request per page following the next links, the first URL carries site / where / project / sort / max_results as given, "
-             "invalid sites raise before any request; parse_dates turns every RFC-1123 field and every time-series timestamp into an aware datetime "
-             "of the same instant in the document's zone and leaves other fields alone; parse_http_date / http_date are inverse to the second at "
-             "and around DST transitions.",
-        note="nothing is proved: the time conversions live in strptime/strftime/pytz (no contract of ours constrains them) and the URL building is "
-             "string code; the pagination loop is a generator, which the verifier's subset does not cover yet",
-        explanation="bounded run-time contract monitor only (rt.fnmon.dataclient_monitor); exhaustive over paging structures up to the stated size",
-        technique="run-time contract monitor on the real functions against a stub server (bounded stand-in)",
+        text="PROVED (every paging of the server's result set - any number of pages, empty pages anywhere, any page sizes -, every argument combination; "
+             "no bound), over a ghost server (page items / has-next / next-href as functions of the requested URL): the generator get_sessions yields "
+             "exactly the concatenation of the pages' items along the chain of next links - every session once, in server order (outer loop invariant "
+             "'yielded ++ CHAIN(current page) = CHAIN(first page)', inner loop invariant 'the first k items of this page have been yielded'), stops "
+             "only when a page has no next link, issues exactly one request per page (request log = the chain's URLs), the first URL is base + "
+             "'sessions/' + site [+ '/ts/'] + '?' + [where=cond&][project=p&][sort=s&]max_results=100 (1 for time series) built from the arguments as "
+             "given (z3 string theory), and an invalid site raises ValueError before any request is made (request log and output unchanged). "
+             "BOUNDED: the time half of the property - every RFC-1123 field and time-series timestamp becomes an aware datetime of the same instant in "
+             "the document's zone, http_date / parse_http_date are inverse to the second (strptime / strftime / pytz: no contract of ours constrains them) - "
+             "and count_sessions / get_sessions_by_time, checked against a stub server and around DST transitions.",
+        note="requests.get(url).json() is the ghost server's page for that URL (A-LIB / A-SERVER: the next links form a finite chain); parse_dates enters "
+             "through a frame-only assumed contract (its effect on the documents is the monitored half); sequence-theory lemma s[0:k+1] = s[0:k] ++ [s[k]] "
+             "instantiated per occurrence",
+        explanation="proved: pagination, ordering, request count and URL construction of get_sessions (pyvc/z3 sequence and string theories); bounded: time "
+                    "conversions and the two wrapper methods (rt.fnmon.dataclient_monitor)",
+        technique="contract-based deductive verification of the generator over a ghost server (loop invariants, z3 sequence / string theory) + run-time contract monitor (bounded) for the time conversions",
+        trusted=["A-LIB: requests.get / Response.json as a function URL -> page; str.format / join / + as string concatenation",
+                 "A-SERVER: finite chain of next links"],
     ),
     "C15": dict(
         level="other",
